@@ -1,7 +1,144 @@
 import IbModel.Util.Wire
-/-! Driver handlers for C14 (request kinds served for that property). -/
-namespace IB.D14
+import IbModel.Model.Sampling
+/-!
+Driver handlers for C14.
 
-def handlers : List (String × (List String → String)) := []
+* `RESERVOIR <k> <seed> <values> <sizes> <tree…>` — the combiner driven directly. `values` = comma-separated
+  ints (`-` = none); `sizes` = comma-separated leaf sizes (they cut `values` left to right); `tree` = prefix
+  tokens `N <t> <t>` (merge left with right), `L<i>` (leaf `i` built by `create` + `add_input`),
+  `B<i>` (leaf `i` built by `build_from_group`). Answer `OK <sample>`.
+* `SAMPLEPIPE <gvec|gflat|kvec|kflat> <k> <seed> <parts> <rows>` — the four entry points; `parts` =
+  comma-separated partition counts; `rows` = ints, or `key:value` pairs for the keyed entry points.
+  Answer `seq=<out> p<n>=<out> …` (keyed outputs after a stable sort by key).
+-/
+namespace IB.D14
+open IB.Wire IB.Sampling
+
+def ints? (s : String) : Option (List Int) :=
+  if s == "-" then some [] else (s.splitOn ",").mapM parseInt?
+
+def nats? (s : String) : Option (List Nat) :=
+  if s == "-" then some [] else (s.splitOn ",").mapM parseNat?
+
+def kvRow? (s : String) : Option (Int × Int) :=
+  match s.splitOn ":" with
+  | [k, v] => do pure ((← parseInt? k), (← parseInt? v))
+  | _ => none
+
+def kvs? (s : String) : Option (List (Int × Int)) :=
+  if s == "-" then some [] else (s.splitOn ",").mapM kvRow?
+
+def encInts (sep : String) (l : List Int) : String :=
+  if l.isEmpty then "-" else sep.intercalate (l.map toString)
+
+/-- cut `xs` into consecutive pieces of the given sizes; `none` unless the sizes add up exactly -/
+def cut (xs : List Int) : List Nat → Option (List (List Int))
+  | [] => if xs.isEmpty then some [] else none
+  | s :: rest =>
+    if s ≤ xs.length then
+      match cut (xs.drop s) rest with
+      | some ps => some (xs.take s :: ps)
+      | none => none
+    else none
+
+inductive Shape where
+  | leaf (i : Nat) (lifted : Bool)
+  | node (l r : Shape)
+
+/-- prefix parser with fuel; returns the shape and the unread tokens -/
+def parseShape : Nat → List String → Option (Shape × List String)
+  | 0, _ => none
+  | _ + 1, [] => none
+  | fuel + 1, t :: ts =>
+    if t == "N" then
+      match parseShape fuel ts with
+      | some (l, ts1) =>
+        match parseShape fuel ts1 with
+        | some (r, ts2) => some (.node l r, ts2)
+        | none => none
+      | none => none
+    else if t.startsWith "L" then (parseNat? (t.drop 1).toString).map (fun i => (.leaf i false, ts))
+    else if t.startsWith "B" then (parseNat? (t.drop 1).toString).map (fun i => (.leaf i true, ts))
+    else none
+
+/-- evaluate a shape with the model's combiner; `none` = a leaf index out of range -/
+def evalShape (c : Combiner Int (PRAcc UInt64 Int) (List Int)) (parts : List (List Int)) :
+    Shape → Option (PRAcc UInt64 Int)
+  | .leaf i lifted =>
+    match parts[i]? with
+    | some p => some (if lifted then c.build p else (Tree.leaf p).eval c)
+    | none => none
+  | .node l r =>
+    match evalShape c parts l, evalShape c parts r with
+    | some a, some b => some (c.merge a b)
+    | _, _ => none
+
+def handleReservoir : List String → String
+  | k :: seed :: vals :: sizes :: tree =>
+    match parseNat? k, parseNat? seed, ints? vals, nats? sizes with
+    | some k, some seed, some xs, some sz =>
+      if seed ≥ 2 ^ 64 then "BAD-OP" else
+      match cut xs sz, parseShape (tree.length + 1) tree with
+      | some parts, some (sh, []) =>
+        let c : Combiner Int (PRAcc UInt64 Int) (List Int) := reservoirSM k (UInt64.ofNat seed)
+        match evalShape c parts sh with
+        | some a => "OK " ++ encInts "," (c.finish a)
+        | none => "BAD-OP"
+      | _, _ => "BAD-OP"
+    | _, _, _, _ => "BAD-OP"
+  | _ => "BAD-OP"
+
+/-! ### pipelines -/
+
+def insertByKey {β : Type} (x : Int × β) : List (Int × β) → List (Int × β)
+  | [] => [x]
+  | y :: ys => if x.1 ≤ y.1 then x :: y :: ys else y :: insertByKey x ys
+
+/-- stable sort by key (`sort_by_key` in the harness) -/
+def sortByKey {β : Type} (l : List (Int × β)) : List (Int × β) := l.foldr insertByKey []
+
+def encGroups (rows : List (Int × List Int)) : String :=
+  if rows.isEmpty then "-"
+  else ",".intercalate (rows.map (fun r => toString r.1 ++ ":" ++ ".".intercalate (r.2.map toString)))
+
+def encPairs (rows : List (Int × Int)) : String :=
+  if rows.isEmpty then "-" else ",".intercalate (rows.map (fun r => toString r.1 ++ ":" ++ toString r.2))
+
+/-- canonical output of one run of one entry point; `n = none` is sequential mode -/
+def runEntry (entry : String) (k : Nat) (seed : UInt64) (n : Option Nat) (xs : List Int)
+    (rows : List (Int × Int)) : Option String :=
+  let c : Combiner Int (PRAcc UInt64 Int) (List Int) := reservoirSM k seed
+  let g : List Int := match n with | none => sampleSeq c xs | some n => samplePar c n xs
+  let kd : List (Int × List Int) :=
+    match n with | none => sampleKeyedSeq c rows | some n => sampleKeyedPar c n rows
+  if entry == "gvec" then some (encInts "," g)          -- exactly one output row
+  else if entry == "gflat" then some (encInts "," g)     -- the row flattened
+  else if entry == "kvec" then some (encGroups (sortByKey kd))
+  else if entry == "kflat" then some (encPairs (sortByKey (flattenKeyed kd)))
+  else none
+
+def handlePipe : List String → String
+  | [entry, k, seed, parts, rows] =>
+    match parseNat? k, parseNat? seed, nats? parts with
+    | some k, some seed, some ps =>
+      if seed ≥ 2 ^ 64 then "BAD-OP" else
+      let keyed := entry == "kvec" || entry == "kflat"
+      let parsed : Option (List Int × List (Int × Int)) :=
+        if keyed then (kvs? rows).map (fun r => ([], r)) else (ints? rows).map (fun x => (x, []))
+      match parsed with
+      | some (xs, kv) =>
+        let s := UInt64.ofNat seed
+        let outs : List (Option String) :=
+          (runEntry entry k s none xs kv).map ("seq=" ++ ·) ::
+            ps.map (fun n => (runEntry entry k s (some n) xs kv).map (fun o => "p" ++ toString n ++ "=" ++ o))
+        match outs.mapM id with
+        | some l => " ".intercalate l
+        | none => "BAD-OP"
+      | none => "BAD-OP"
+    | _, _, _ => "BAD-OP"
+  | _ => "BAD-OP"
+
+def handlers : List (String × (List String → String)) :=
+  [("RESERVOIR", handleReservoir), ("SAMPLEPIPE", handlePipe)]
 
 end IB.D14
